@@ -166,4 +166,16 @@ def writeTouched (root : Path) (items : List Str) (year : Nat) : List Path :=
 def destroyTouched (root : Path) (items : List Str) : List Path :=
   (dirChain root items).drop 1
 
+/-! ## with the key validation of the repaired code (`TimeBucketKey.Validate`) -/
+
+def allSafe (items : List Str) : Bool := items.all (fun c => decide (safe c))
+
+/-- `AddTimeBucket` when it validates the key first (`v`): an unsafe key touches nothing -/
+def createTouchedV (v : Bool) (root : Path) (items : List Str) (year : Nat) : List Path :=
+  if v && !allSafe items then [] else createTouched root items year
+
+/-- `RemoveTimeBucket` when it validates the key first -/
+def destroyTouchedV (v : Bool) (root : Path) (items : List Str) : List Path :=
+  if v && !allSafe items then [] else destroyTouched root items
+
 end Mkts.Path
